@@ -133,6 +133,16 @@ impl View2 {
         changed
     }
 
+    /// Checks whether any component differs bitwise from `other`
+    fn bits_differ(&self, other: &Self) -> bool {
+        bits_differ(self.scale, other.scale)
+            || self
+                .center
+                .iter()
+                .zip(other.center.iter())
+                .any(|(a, b)| bits_differ(*a, *b))
+    }
+
     /// Zooms the camera about a particular position (in world space)
     ///
     /// Returns `true` if the view has changed, `false` otherwise
@@ -149,12 +159,7 @@ impl View2 {
                 self.scale *= amount;
             }
         }
-        bits_differ(self.scale, prev.scale)
-            || self
-                .center
-                .iter()
-                .zip(prev.center.iter())
-                .any(|(a, b)| bits_differ(*a, *b))
+        self.bits_differ(&prev)
     }
 }
 
@@ -283,6 +288,18 @@ impl View3 {
         changed
     }
 
+    /// Checks whether any component differs bitwise from `other`
+    fn bits_differ(&self, other: &Self) -> bool {
+        bits_differ(self.scale, other.scale)
+            || bits_differ(self.yaw, other.yaw)
+            || bits_differ(self.pitch, other.pitch)
+            || self
+                .center
+                .iter()
+                .zip(other.center.iter())
+                .any(|(a, b)| bits_differ(*a, *b))
+    }
+
     /// Zooms the camera about a particular position (in world space)
     ///
     /// Returns `true` if the view has changed, `false` otherwise
@@ -299,12 +316,7 @@ impl View3 {
                 self.scale *= amount;
             }
         }
-        bits_differ(self.scale, prev.scale)
-            || self
-                .center
-                .iter()
-                .zip(prev.center.iter())
-                .any(|(a, b)| bits_differ(*a, *b))
+        self.bits_differ(&prev)
     }
 
     /// Begins a rotation operation, given a point in world space
@@ -464,6 +476,7 @@ impl Canvas2 {
         scroll: f32,
     ) -> bool {
         self.image_size = image_size;
+        let prev = self.view;
         let mut changed = false;
         let pos_screen = match cursor_state {
             Some(cs) => {
@@ -481,7 +494,9 @@ impl Canvas2 {
             }
         };
         changed |= self.zoom(scroll, pos_screen);
-        changed
+        // A drag and a zoom may cancel out (e.g. NaN components changing
+        // sign and back), so compare against the view we started with.
+        changed && self.view.bits_differ(&prev)
     }
 
     /// Returns the current view
@@ -608,6 +623,7 @@ impl Canvas3 {
     ) -> bool {
         let mut changed = false;
         self.image_size = image_size;
+        let prev = self.view;
         let pos_screen = match cursor_state {
             Some(cs) => {
                 if let Some(drag_mode) = cs.drag {
@@ -624,7 +640,7 @@ impl Canvas3 {
             }
         };
         changed |= self.zoom(scroll, pos_screen);
-        changed
+        changed && self.view.bits_differ(&prev)
     }
 
     pub fn view(&self) -> View3 {
